@@ -50,6 +50,7 @@ func main() {
 }
 
 func runLoop() {
+	cliPath = os.Getenv("REFMT_CLI")
 	zooDefs() // fix type ids exactly as the generator did
 	sc := bufio.NewScanner(os.Stdin)
 	sc.Buffer(make([]byte, 1<<20), 1<<28)
@@ -94,6 +95,12 @@ func handle(p []string) (res string) {
 		return opUnmarshal(p[1:])
 	case "roundtrip":
 		return opRoundtrip(p[1:])
+	case "remarshal":
+		return opRemarshal(p[1:])
+	case "clone":
+		return opClone(p[1:])
+	case "pump":
+		return opPump(p[1:])
 	case "wfault":
 		return opWFault(p[1:])
 	case "rfault":
